@@ -23,7 +23,7 @@ import (
 // and the caller's result, grpc.Header variable and grpc.Trailer variable after the call are compared with the model's.
 func runInvoke(f lib.Flags, res *lib.Result, w *world, drv *lib.Driver) {
 	tie := res.Tie("invoke-model", "K2",
-		"exhaustive over 6 handler preludes (nothing, SetHeader, SendHeader, SetHeader+SetTrailer, SendHeader then a late SetHeader, SetTrailer with two keys) x 5 clients (bare ServerToClient connection, generated onoff / metadata wrappers as typed clients, typed clients on UnwrapService of the onoff (UpdateOnOff) and info wrappers) x {handler parked on work that ignores its context with the caller cancelling from the side, handler returning each of 4 classes of error value, handler answering} plus two parked scripts ended by the caller's deadline: result of the call, grpc.Header and grpc.Trailer variables afterwards = Lean Invoke.lean `frozen` (the caller's goroutine through the ready select cases of SendMsg / RecvMsg / Header with the stream in the state the script leaves); every case non-trivial")
+		"exhaustive over 6 handler preludes (nothing, SetHeader, SendHeader, SetHeader+SetTrailer, SendHeader then a late SetHeader, SetTrailer with two keys) x 9 clients (bare ServerToClient connection; every sampled unary method of the generated wrappers — OnOffApi.GetOnOff, OnOffApi.UpdateOnOff, OnOffInfo.DescribeOnOff, MetadataApi.GetMetadata — through the wrapper's typed client and through a typed client on UnwrapService) x {handler parked on work that ignores its context with the caller cancelling from the side, handler returning each of 4 classes of error value, handler answering} plus two parked scripts ended by the caller's deadline: result of the call, grpc.Header and grpc.Trailer variables afterwards = Lean Invoke.lean `frozen` (the caller's goroutine through the ready select cases of SendMsg / RecvMsg / Header with the stream in the state the script leaves); every case non-trivial")
 	tie.Exhaustive = true
 	if drv == nil {
 		tie.Fail(fmt.Errorf("no Lean driver given"))
@@ -45,7 +45,10 @@ func runInvoke(f lib.Flags, res *lib.Result, w *world, drv *lib.Driver) {
 	}
 	var cases []icase
 	for _, p := range []string{"", "Ha=1", "Sa=1", "Ha=1,Tb=2", "Sa=1,Hb=2", "Tb=2+c=3"} {
-		for _, v := range []string{"", "onoff", "update+us", "metadata", "info+us"} {
+		for _, v := range append([]string{""}, viaNames...) {
+			if v != "" && !viaOK(v, "unary", "s1,c,r,h,t") {
+				continue
+			}
 			cases = append(cases, icase{"select invoke " + join(p, "x") + " - 0",
 				scase{Shape: "unary", Out: "-", Srv: join("R", p, "G"), Fin: "OK", Cli: "s1,c,x,r,h,t", Via: v}, 3})
 			for _, fin := range []string{"E5:e0", "Pboom", "Z", "V9:boom"} {
